@@ -34,7 +34,7 @@ func execConnLW(toks []string) string {
 	var conns []*lwConn
 	handler := diam.HandlerFunc(func(c diam.Conn, m *diam.Message) {
 		if m.Header.HopByHopID >= 5000000 {
-			panic("scripted handler panic")
+			scriptedPanic()
 		}
 		a := m.Answer(2001)
 		a.NewAVP(264, 0x40, 0, datatype.DiameterIdentity("srv"))
